@@ -55,7 +55,7 @@ Print Assumptions C29_only_state_hash_missing.
 
 (* ... every other required field is written by getHashData *)
 Theorem C29_required_fields_covered_partial : forall f, In f C29_required -> f <> "ClientStateHash" ->
-  he_mem f (he_paths hf_block) = true.
+  he_mem f (he_covered hf_block) = true.
 Proof. exact hf_block_covered_except_state. Qed.
 Print Assumptions C29_required_fields_covered_partial.
 
